@@ -44,6 +44,19 @@ pub assume_specification [usize::leading_zeros] (x: usize) -> (r: u32)
             && (x as int) < 2 * vstd::arithmetic::power2::pow2((usize::BITS - 1 - r) as nat),
 ;
 
+/// ASSUMED contract of `usize::trailing_zeros` (std): position of the lowest set bit.  Not called by the crate at the pinned
+/// commit; present so that a change which starts to use it is DECIDED against the contracts instead of stopping the verifier.
+pub uninterp spec fn spec_usize_tz(x: usize) -> u32;
+
+pub assume_specification [usize::trailing_zeros] (x: usize) -> (r: u32)
+    ensures
+        r == spec_usize_tz(x),
+        r <= usize::BITS,
+        x == 0 ==> r == usize::BITS,
+        x != 0 ==> r < usize::BITS && (x as int) % (vstd::arithmetic::power2::pow2(r as nat) as int) == 0
+            && ((x as int) / (vstd::arithmetic::power2::pow2(r as nat) as int)) % 2 == 1,
+;
+
 } // verus!
 
 verus! {
